@@ -96,3 +96,13 @@ Fixpoint split_all (ms : list message) : option (list (list Z)) :=
       end
   end.
 
+
+(** Shape predicates used in the theorem statements (Props/C19.v). *)
+
+(** every chunk but the last has exactly [seg] bytes; the last has between 1 and [seg] *)
+Fixpoint run_shape (seg : nat) (b : list (list Z)) : Prop :=
+  match b with
+  | [] => True
+  | [x] => 0 < length x <= seg
+  | x :: r => length x = seg /\ run_shape seg r
+  end.
